@@ -56,10 +56,12 @@ func (dt *DeferredType) Name() string {
 func (dt *DeferredType) Resolve(c px.Context) px.Type {
 	if dt.resolved == nil {
 		if dt.params != nil {
+			var ih px.OrderedMap
 			if dt.Name() == `TypeSet` && len(dt.params) == 1 {
-				if ih, ok := dt.params[0].(px.OrderedMap); ok {
-					dt.resolved = newTypeSetType2(ih, c.Loader())
-				}
+				ih, _ = dt.params[0].(px.OrderedMap)
+			}
+			if ih != nil {
+				dt.resolved = newTypeSetType2(ih, c.Loader())
 			} else {
 				ar := resolveValue(c, WrapValues(dt.params)).(*Array)
 				dt.resolved = ResolveWithParams(c, dt.tn, ar.AppendTo(make([]px.Value, 0, ar.Len())))
